@@ -86,6 +86,16 @@ def run_graph(pid, tier, plan, replay=None):
                 dest = scratch.path("pairs.ndjson")
                 run([vh, "graph-gen", "--mode", "allpairs", "--universe", udest, "--n", str(npairs), "--out", dest, "--seed", str(seed())])
                 files.append(("tlc-universe-pairs:%s" % ("all" if npairs == 0 else npairs), dest))
+            if plan.get("graphs_universe"):
+                # every graph on three identifiers, written out by TLC; the harness runs every extraction from every start node
+                cfg, ncases = plan["graphs_universe"]
+                udest = scratch.path("graphs.json")
+                out, rc, g1, g2 = tlc(scratch, "MC_GraphLaws", cfg, env={"VH_EXPORT": udest}, workers=1, timeout=900)
+                if not os.path.exists(udest):
+                    raise Infra("TLC did not export the graphs:\n" + out[-2000:])
+                dest = scratch.path("extractall.ndjson")
+                run([vh, "graph-gen", "--mode", "allgraphs", "--universe", udest, "--n", str(ncases), "--out", dest, "--seed", str(seed())])
+                files.append(("tlc-universe-graphs:%s" % ("all" if ncases == 0 else ncases), dest))
             for i, g in enumerate(plan.get("gens", [])):
                 dest = scratch.path("gen%d.ndjson" % i)
                 run([vh, "graph-gen", "--out", dest, "--seed", str(seed() * 1000 + i)] + g["args"])
